@@ -16,6 +16,7 @@ against invariants that the properties state:
   figures           its count / ratio are those of an input candidate (or the IRI+BNode sum of the merged node kind)   (C01, C12)
   coverage          in data-consistent inputs the surviving constraint carries the total of the node kinds            (C03, C01)
   order-free        the outcome does not depend on the order in which the candidates arrive                (C09)
+  cardinality       the merged node kind admits what both of its halves admit: their common exact cardinality, else +   (C01, C03)
 """
 import itertools
 from ..abseval import Evaluator, AbsObj, Raised, Fork, Distinct
@@ -50,7 +51,7 @@ class Setup:
         self.entry = p.func(ASS + "_select_valid_statements_of_shape")
         self.cls = {n: p.find_class(n) for n in ("Statement", "FixedPropChoiceStatement", "MergeableConstraints", "StSerializerFactory")}
 
-    def run(self, kinds, counts, total, inv, disable_or, redundant, order=None, shared=None):
+    def run(self, kinds, counts, total, inv, disable_or, redundant, order=None, shared=None, cards=None):
         """shared: (evaluator, factory) of an earlier run - the strategy object lives as long as the shexer, so its serializer
         factory serves every shape and both directions."""
         if shared is not None:
@@ -63,8 +64,8 @@ class Setup:
         factory = shared[1] if shared is not None else ev.new(self.cls["StSerializerFactory"], freq_mode=self.ctx.p.const("shexer.consts", "RATIO_INSTANCES"), decimals=-1,
                          instantiation_property_str="http://www.w3.org/1999/02/22-rdf-syntax-ns#type", disable_comments=False)
         stmts = []
-        for k, n in zip(kinds, counts):
-            stmts.append(ev.new(self.cls["Statement"], st_property=PROP, st_type=k, cardinality="+", n_occurences=n,
+        for i_, (k, n) in enumerate(zip(kinds, counts)):
+            stmts.append(ev.new(self.cls["Statement"], st_property=PROP, st_type=k, cardinality=cards[i_] if cards else "+", n_occurences=n,
                                 probability=n / float(total), serializer_object=None, is_inverse=inv))
         if order is not None:
             stmts = [stmts[i] for i in order]
@@ -99,7 +100,8 @@ def _summary(st):
 
 def invariants(ctx, clause, which=None):
     su = Setup(ctx)
-    fails = {k: None for k in ("no-crash", "one-per-key", "direction", "property", "or-scope", "figures", "coverage", "order-free")}
+    fails = {k: None for k in ("no-crash", "one-per-key", "direction", "property", "or-scope", "figures", "coverage", "order-free",
+                               "cardinality")}
     counts_seen = {k: 0 for k in fails}
     runs = 0
     for r in range(2, len(KINDS) + 1):
@@ -176,6 +178,28 @@ def invariants(ctx, clause, which=None):
                         tied = len(set(counts)) != len(counts)
                         if not tied and s2 != [s1]:
                             fails["order-free"] = fails["order-free"] or "%s: %s, with the candidates in reverse order %s" % (desc, s1, s2)
+    # the IRI and the blank-node candidates arrive with the cardinality each group voted: the merged node kind must admit both
+    if which is None or "cardinality" in which:
+        closure = ctx.p.const("shexer.model.statement", "POSITIVE_CLOSURE")
+        for kinds in ([KINDS[0], KINDS[1]], [KINDS[0], KINDS[1], KINDS[2]]):
+            for counts in ((3, 2, 1), (2, 3, 1)):
+                counts = list(counts[:len(kinds)])
+                for ci, cb in ((1, 2), (2, 1), (2, 2), (closure, 1), (1, closure)):
+                    for inv in (False, True):
+                        cards = [ci, cb] + [closure] * (len(kinds) - 2)
+                        out = su.run(kinds, counts, sum(counts), inv, True, False, cards=cards)
+                        runs += 1
+                        counts_seen["cardinality"] += 1
+                        desc = _describe(kinds, counts, inv, True, False) + ", IRI voted %s and BNode voted %s" % (ci, cb)
+                        if "raised" in out or not isinstance(out["result"], list) or len(out["result"]) != 1 \
+                                or not isinstance(out["result"][0], AbsObj):
+                            continue       # no-crash / one-per-key report these
+                        f = out["result"][0].fields
+                        want = ci if ci == cb and ci != closure else closure
+                        if f.get("_n_occurences") == counts[0] + counts[1] and f.get("_cardinality") != want:
+                            fails["cardinality"] = fails["cardinality"] or (
+                                "%s: the merged constraint stands for both groups (%d instances) with cardinality %r - instances of the "
+                                "other group do not match it; expected %r" % (desc, counts[0] + counts[1], f.get("_cardinality"), want))
     # the factory outlives a shape: a direct disjunction first, then an inverse one (and the other way round) on one factory
     SH = [KINDS[2], KINDS[3]]
     for first in (False, True):
@@ -203,6 +227,7 @@ def invariants(ctx, clause, which=None):
         "figures": "the constraint reports the figures of one of its candidates (or the IRI+BNode sum of the merged node kind)",
         "coverage": "in data-consistent inputs the surviving constraint stands for every instance that has a non-literal value",
         "order-free": "with untied counts the outcome does not depend on the order of the candidates",
+        "cardinality": "an IRI+BNode merge keeps the common exact cardinality of its halves and falls back to + when they differ",
     }
     obs = []
     for k, why in fails.items():
